@@ -80,21 +80,77 @@ Proof.
   intros H. exists r. split; [reflexivity|]. apply c05_rule2_okb_sound. exact H.
 Qed.
 
-Lemma c05_gauss_1_ok : c05_gauss_ok 1.   Proof. apply c05_gauss_okb_sound. vm_compute. reflexivity. Qed.
-Lemma c05_gauss_2_ok : c05_gauss_ok 2.   Proof. apply c05_gauss_okb_sound. vm_compute. reflexivity. Qed.
-Lemma c05_gauss_3_ok : c05_gauss_ok 3.   Proof. apply c05_gauss_okb_sound. vm_compute. reflexivity. Qed.
-Lemma c05_gauss_4_ok : c05_gauss_ok 4.   Proof. apply c05_gauss_okb_sound. vm_compute. reflexivity. Qed.
-Lemma c05_gauss_5_ok : c05_gauss_ok 5.   Proof. apply c05_gauss_okb_sound. vm_compute. reflexivity. Qed.
-Lemma c05_gauss_6_ok : c05_gauss_ok 6.   Proof. apply c05_gauss_okb_sound. vm_compute. reflexivity. Qed.
-Lemma c05_gauss_7_ok : c05_gauss_ok 7.   Proof. apply c05_gauss_okb_sound. vm_compute. reflexivity. Qed.
-Lemma c05_gauss_8_ok : c05_gauss_ok 8.   Proof. apply c05_gauss_okb_sound. vm_compute. reflexivity. Qed.
-Lemma c05_gauss_9_ok : c05_gauss_ok 9.   Proof. apply c05_gauss_okb_sound. vm_compute. reflexivity. Qed.
-Lemma c05_gauss_10_ok : c05_gauss_ok 10. Proof. apply c05_gauss_okb_sound. vm_compute. reflexivity. Qed.
-Lemma c05_tri_1_ok : c05_tri_ok 1.       Proof. apply c05_tri_okb_sound. vm_compute. reflexivity. Qed.
-Lemma c05_tri_4_ok : c05_tri_ok 4.       Proof. apply c05_tri_okb_sound. vm_compute. reflexivity. Qed.
-Lemma c05_tri_8_ok : c05_tri_ok 8.       Proof. apply c05_tri_okb_sound. vm_compute. reflexivity. Qed.
-Lemma c05_tri_10_ok : c05_tri_ok 10.     Proof. apply c05_tri_okb_sound. vm_compute. reflexivity. Qed.
-Lemma c05_tri_12_ok : c05_tri_ok 12.     Proof. apply c05_tri_okb_sound. vm_compute. reflexivity. Qed.
+(* ---- the power-table checkers compute the same thing ---- *)
+Lemma c05_pows_from_nth x acc n a :
+  (a <= n)%nat -> nth a (c05_pows_from x acc n) 0 = acc * x ^ Z.of_nat a.
+Proof.
+  revert acc a. induction n as [|n IH]; intros acc a H.
+  - assert (a = 0%nat) by lia. subst a. cbn. lia.
+  - destruct a as [|a]; cbn [c05_pows_from nth]; [cbn; lia|].
+    rewrite IH by lia. rewrite Nat2Z.inj_succ, Z.pow_succ_r by lia. lia.
+Qed.
+
+Lemma c05_pows_nth x n a : (a <= n)%nat -> nth a (c05_pows x n) 0 = x ^ Z.of_nat a.
+Proof. intros H. unfold c05_pows. rewrite c05_pows_from_nth by exact H. lia. Qed.
+
+Lemma c05_forallb_ext {A} (f g : A -> bool) l :
+  (forall x, In x l -> f x = g x) -> forallb f l = forallb g l.
+Proof.
+  induction l as [|x l IH]; intros H; cbn; [reflexivity|].
+  rewrite H by (left; reflexivity). rewrite IH by (intros; apply H; right; assumption). reflexivity.
+Qed.
+
+Lemma c05_monomials_bound deg a b : In (a, b) (c05_monomials deg) -> (a + b <= deg)%nat.
+Proof.
+  unfold c05_monomials. intros H. apply in_flat_map in H. destruct H as (a' & Ha & H).
+  apply in_map_iff in H. destruct H as (b' & E & Hb). injection E as <- <-.
+  apply in_seq in Ha. apply in_seq in Hb. lia.
+Qed.
+
+Lemma c05_rule1_exactb_fast_eq D r deg : c05_rule1_exactb_fast D r deg = c05_rule1_exactb D r deg.
+Proof.
+  unfold c05_rule1_exactb_fast, c05_rule1_exactb. cbv zeta. apply c05_forallb_ext. intros k Hk.
+  apply in_seq in Hk. rewrite c05_pows_nth by lia. f_equal.
+  unfold c05_moment1. rewrite map_map. f_equal. apply map_ext. intros [g w]. cbn [fst snd].
+  rewrite c05_pows_nth by lia. reflexivity.
+Qed.
+
+Lemma c05_rule2_exactb_fast_eq D r deg : c05_rule2_exactb_fast D r deg = c05_rule2_exactb D r deg.
+Proof.
+  unfold c05_rule2_exactb_fast, c05_rule2_exactb. cbv zeta. apply c05_forallb_ext. intros [a b] Hab.
+  apply c05_monomials_bound in Hab. cbn [fst snd]. rewrite c05_pows_nth by lia. f_equal.
+  unfold c05_moment2. rewrite map_map. f_equal. apply map_ext. intros [[[x y] z] w]. cbn [fst snd].
+  rewrite !c05_pows_nth by lia. reflexivity.
+Qed.
+
+Lemma c05_gauss_okb_fast_sound n : c05_gauss_okb_fast n = true -> c05_gauss_ok n.
+Proof.
+  intros H. apply c05_gauss_okb_sound. revert H. unfold c05_gauss_okb_fast, c05_gauss_okb.
+  destruct (c05_gauss_rule n); [|discriminate]. unfold c05_rule1_okb_fast, c05_rule1_okb.
+  rewrite c05_rule1_exactb_fast_eq. exact (fun H => H).
+Qed.
+Lemma c05_tri_okb_fast_sound n : c05_tri_okb_fast n = true -> c05_tri_ok n.
+Proof.
+  intros H. apply c05_tri_okb_sound. revert H. unfold c05_tri_okb_fast, c05_tri_okb.
+  destruct (c05_tri_rule n); [|discriminate]. unfold c05_rule2_okb_fast, c05_rule2_okb.
+  rewrite c05_rule2_exactb_fast_eq. exact (fun H => H).
+Qed.
+
+Lemma c05_gauss_1_ok : c05_gauss_ok 1.   Proof. apply c05_gauss_okb_fast_sound. vm_compute. reflexivity. Qed.
+Lemma c05_gauss_2_ok : c05_gauss_ok 2.   Proof. apply c05_gauss_okb_fast_sound. vm_compute. reflexivity. Qed.
+Lemma c05_gauss_3_ok : c05_gauss_ok 3.   Proof. apply c05_gauss_okb_fast_sound. vm_compute. reflexivity. Qed.
+Lemma c05_gauss_4_ok : c05_gauss_ok 4.   Proof. apply c05_gauss_okb_fast_sound. vm_compute. reflexivity. Qed.
+Lemma c05_gauss_5_ok : c05_gauss_ok 5.   Proof. apply c05_gauss_okb_fast_sound. vm_compute. reflexivity. Qed.
+Lemma c05_gauss_6_ok : c05_gauss_ok 6.   Proof. apply c05_gauss_okb_fast_sound. vm_compute. reflexivity. Qed.
+Lemma c05_gauss_7_ok : c05_gauss_ok 7.   Proof. apply c05_gauss_okb_fast_sound. vm_compute. reflexivity. Qed.
+Lemma c05_gauss_8_ok : c05_gauss_ok 8.   Proof. apply c05_gauss_okb_fast_sound. vm_compute. reflexivity. Qed.
+Lemma c05_gauss_9_ok : c05_gauss_ok 9.   Proof. apply c05_gauss_okb_fast_sound. vm_compute. reflexivity. Qed.
+Lemma c05_gauss_10_ok : c05_gauss_ok 10. Proof. apply c05_gauss_okb_fast_sound. vm_compute. reflexivity. Qed.
+Lemma c05_tri_1_ok : c05_tri_ok 1.       Proof. apply c05_tri_okb_fast_sound. vm_compute. reflexivity. Qed.
+Lemma c05_tri_4_ok : c05_tri_ok 4.       Proof. apply c05_tri_okb_fast_sound. vm_compute. reflexivity. Qed.
+Lemma c05_tri_8_ok : c05_tri_ok 8.       Proof. apply c05_tri_okb_fast_sound. vm_compute. reflexivity. Qed.
+Lemma c05_tri_10_ok : c05_tri_ok 10.     Proof. apply c05_tri_okb_fast_sound. vm_compute. reflexivity. Qed.
+Lemma c05_tri_12_ok : c05_tri_ok 12.     Proof. apply c05_tri_okb_fast_sound. vm_compute. reflexivity. Qed.
 
 (* the supported orders are exactly these; every other order makes the function fall through *)
 Lemma c05_gauss_supported n : c05_gauss_rule n <> None <-> 1 <= n <= 10.
